@@ -218,6 +218,18 @@ impl Cx {
         }
         // samples: first 3, then powers of 4
         let n = s.evaluations;
+        if n % 1024 == 0 || n == 2 {
+            // progress marker: if the process dies or hangs before the section's checkpoint, what it had covered is still known
+            if let Some(dir) = &self.journal_dir {
+                let (mut ev, mut dn) = (0u64, 0u64);
+                for st in g.sections.values() {
+                    ev += st.evaluations;
+                    dn += st.distinct_obs.len() as u64;
+                }
+                let _ = std::fs::write(dir.join("progress.json"), serde_json::json!({"evaluations": ev, "distinct_nontrivial": dn}).to_string());
+            }
+        }
+        let s = g.sections.get_mut(section).unwrap();
         let want_sample = n <= 3 || (n.is_power_of_two() && n.trailing_zeros() % 3 == 0 && s.samples.len() < 12);
         let mut case_val = None;
         if want_sample && out.violation.is_none() {
@@ -239,6 +251,14 @@ impl Cx {
                     v.desc = desc.clone();
                 }
             } else {
+                // a first violation of a signature is also written out at once: the violating case may have damaged the
+                // process (heap corruption) so that it dies later, in a case that is innocent on its own
+                if let Some(dir) = &self.journal_dir {
+                    use std::io::Write;
+                    if let Ok(mut f) = std::fs::OpenOptions::new().create(true).append(true).open(dir.join("violations.jsonl")) {
+                        let _ = writeln!(f, "{}", serde_json::json!({"section": section, "signature": sig, "desc": desc, "case": cv, "known": known}));
+                    }
+                }
                 g.violations.push(ViolationRec {
                     section: section.to_string(),
                     signature: sig.clone(),
